@@ -192,7 +192,8 @@ def run_item(item):
 
     def reform(kind, label, p2, f2, allowed, must_change=None):
         p_snap = copy.deepcopy(p2)
-        f_snap = dict(f2)
+        f_parts = [x for x in (f2 if isinstance(f2, list) else [f2]) if isinstance(x, dict)]
+        f_snaps = [dict(x) for x in f_parts]
         try:
             S1, nodes1, _, _, _ = env.trace(df, p2, f2, TARGETS)
         except Exception as e:  # noqa: BLE001
@@ -204,8 +205,10 @@ def run_item(item):
         bad = env.deep_equal(p_snap, p2, "params")
         if bad:
             viol("mutation:params", f"the params passed by the caller were modified by the run: {bad}")
-        if f_snap != f2 or any(f_snap[k] is not f2[k] for k in f2):
-            viol("mutation:functions", "the functions dict passed by the caller was modified by the run")
+        for x, sn in zip(f_parts, f_snaps):
+            if sn != x or any(sn[k] is not x[k] for k in x):
+                viol("mutation:functions", f"a functions dict passed by the caller was modified by the run (reform {kind} {label}): "
+                                           f"{[k for k in x if sn.get(k) is not x[k]][:4]}")
         if nodes1 != nodes:
             viol(f"graph:{kind}", f"reform {label} changes the set of nodes")
             return
@@ -284,6 +287,14 @@ def run_item(item):
         f2 = dict(functions)
         f2[t] = modified(functions[t])
         reform("function", t, params, f2, allowed_from({t}), must_change=t)
+    # (c2) the list form of the functions argument: [environment dict, user function] and [environment dict, {name: function}],
+    #      the same environment dict re-used for the next, unrelated reform and finally for a baseline run
+    if len(mine) >= 2:
+        shared = dict(functions)
+        t1, t2 = mine[0], mine[-1]
+        reform("function_list", t1, params, [shared, modified(functions[t1])], allowed_from({t1}), must_change=t1)
+        reform("function_list", t2, params, [shared, {t2: modified(functions[t2])}], allowed_from({t2}), must_change=t2)
+        reform("identical", f"baseline with the environment dict that went through list-form reforms of {t1}, {t2}", params, shared, set())
     # (d) a user function that reads one of its arguments in another time unit (weekly instead of monthly):
     #     the derived weekly node must not disturb its monthly source nor anything else outside descendants(f)
     import re as _re
